@@ -198,8 +198,41 @@ class DirectMethod:
         """
         return vertcat(self.opti.x, self.opti.p)
 
+    @staticmethod
+    def rescaled_argument(a):
+        """A sampled decision variable that was declared with a scale reads scale*variable, which is not a valid
+        function input: an invertible linear rescaling of its symbols. Returns (symbols, matrix) or None"""
+        if isinstance(a, MX) and not a.is_valid_input() and not a.is_constant():
+            syms = veccat(*symvar(a))
+            J = jacobian(casadi.vec(a), syms)
+            if not casadi.depends_on(J, syms) and J.size1()==J.size2() and \
+                float(evalf(casadi.mmax(casadi.fabs(casadi.substitute(casadi.vec(a), syms, DM.zeros(syms.shape))))))==0:
+                return syms, evalf(J)
+        return None
+
     def to_function(self, stage, name, args, results, *margs):
-        return self.opti.to_function(name, [stage.value(a) for a in args], results, *margs)
+        args = [stage.value(a) for a in args]
+        # Rescaled arguments: hand their symbols to Opti and undo the scaling outside
+        inner_args = list(args)
+        outer_args = []
+        call_args = []
+        wrapped = False
+        for i, a in enumerate(args):
+            r = self.rescaled_argument(a)
+            if r is None:
+                # Keep the argument itself as the input: other expressions may refer to its symbols
+                outer_args.append(a)
+                call_args.append(a)
+            else:
+                outer = MX.sym("arg%d" % i, a.sparsity())
+                outer_args.append(outer)
+                inner_args[i] = r[0]
+                call_args.append(casadi.solve(r[1], casadi.vec(outer)))
+                wrapped = True
+        if not wrapped:
+            return self.opti.to_function(name, args, results, *margs)
+        inner = self.opti.to_function(name, inner_args, results)
+        return casadi.Function(name, outer_args, inner.call(call_args, True, False), *margs)
 
     def fill_placeholders_integral(self, phase, stage, expr, *args):
         if phase==1:
